@@ -20,7 +20,21 @@ static VARIANT: std::sync::atomic::AtomicU32 = std::sync::atomic::AtomicU32::new
 const FILL: [u32; 6] = [0, 0x0180_0000, 0xF27F_FFFF, 0x0A12_3456, 0xFE80_0001, 0x7FFF_FFFF];
 
 pub fn mk_tracking(ref_id: u32, leap: u16, ref_s: i64, ref_n: u32, corr: u32, delay: u32, disp: u32, interval: u32) -> Tracking {
-    let v = VARIANT.fetch_add(1, std::sync::atomic::Ordering::SeqCst) as usize;
+    // ... except that a report equal to the one crafted just before in every field that matters gets the same
+    // filling again: chronyd repeats its tracking data, bit for bit, until it has a new measurement
+    static LAST: std::sync::Mutex<Option<((u32, u16, i64, u32, u32, u32, u32, u32), usize)>> = std::sync::Mutex::new(None);
+    let key = (ref_id, leap, ref_s, ref_n, corr, delay, disp, interval);
+    let v = {
+        let mut last = LAST.lock().unwrap_or_else(|e| e.into_inner());
+        match *last {
+            Some((k, v)) if k == key => v,
+            _ => {
+                let v = VARIANT.fetch_add(1, std::sync::atomic::Ordering::SeqCst) as usize;
+                *last = Some((key, v));
+                v
+            }
+        }
+    };
     let fill = |k: usize| FILL[(v + k) % FILL.len()];
     let mut b: Vec<u8> = Vec::with_capacity(128);
     b.put_u8(6);
